@@ -251,7 +251,7 @@ func genHelpNode(r *rand.Rand, name string, depth int, parent *hNode, version bo
 				def = "true"
 			}
 		case 1:
-			v := []string{"", "str", "with space", "q\"uote"}[r.Intn(4)]
+			v := []string{"", "str", "with space", "q\"uote", "50%", "%d %s", "a\\b"}[r.Intn(7)] // shown %q-quoted, verbatim otherwise
 			decls = append(decls, func(c *cli.Cmd) { c.String(cli.StringOpt{Name: name, Desc: d, EnvVar: e, Value: v, HideValue: hide}) })
 			if v != "" {
 				def = fmt.Sprintf("%q", v)
@@ -265,7 +265,7 @@ func genHelpNode(r *rand.Rand, name string, depth int, parent *hNode, version bo
 			decls = append(decls, func(c *cli.Cmd) { c.Float64(cli.Float64Opt{Name: name, Desc: d, EnvVar: e, Value: v, HideValue: hide}) })
 			def = fmt.Sprintf("%v", v)
 		case 4:
-			v := [][]string{nil, {}, {"a"}, {"a", "b c"}}[r.Intn(4)]
+			v := [][]string{nil, {}, {"a"}, {"a", "b c"}, {"100%", "%v"}}[r.Intn(5)]
 			decls = append(decls, func(c *cli.Cmd) { c.Strings(cli.StringsOpt{Name: name, Desc: d, EnvVar: e, Value: v, HideValue: hide}) })
 			if len(v) > 0 {
 				var q []string
@@ -312,7 +312,7 @@ func genHelpNode(r *rand.Rand, name string, depth int, parent *hNode, version bo
 		hide := r.Intn(4) == 0
 		dv := ""
 		if r.Intn(2) == 0 {
-			v := []string{"", "dflt"}[r.Intn(2)]
+			v := []string{"", "dflt", "5%"}[r.Intn(3)]
 			decls = append(decls, func(c *cli.Cmd) { c.String(cli.StringArg{Name: nm, Desc: d, EnvVar: e, Value: v, HideValue: hide}) })
 			if !hide && v != "" {
 				dv = fmt.Sprintf("(default %q)", v)
